@@ -243,6 +243,7 @@ func init() {
 			{ID: "R16.1", Title: "AddMap: constants/static functions of the wrapped scope win, all other names become attributes of the map", Floor: 1, Run: ruleR161},
 			{ID: "R16.2", Title: "GenerateWithMap: one name for stack argument and attribute owner; AddMap wraps the generator scope, arguments on top", Floor: 1, Run: ruleR162},
 			{ID: "R16.3", Title: "closure scopes are used for the closure body only; outer names are deduplicated by the appended value", Floor: 4, Run: ruleR163},
+			{ID: "R16.4", Title: "every identifier resolved to an attribute is rewritten to a map access, whatever follows it", Floor: 2, Run: ruleR164},
 			{ID: "R01.3", Title: "scope recording of closure literals (see C01)", Floor: 3, Run: ruleR013},
 		},
 	})
@@ -270,6 +271,8 @@ func init() {
 			{ID: "R18.3", Title: "XML escaper: < > & ' \" always become entities (abstract evaluation per code point)", Floor: 1, Run: ruleR183},
 			{ID: "R18.4", Title: "elements are balanced: every function changes the depth by exactly its role on non-failing paths", Floor: 15, Run: ruleR184},
 			{ID: "R18.5", Title: "ToHtml recovers panics into its error result", Floor: 1, Run: ruleR185},
+			{ID: "R18.6", Title: "the XML name validator accepts only XML name characters (value-set analysis of its condition over all code points)", Floor: 1, Run: ruleR186},
+			{ID: "R05.10", Title: "a recovered panic is reported on every path: a result the caller sees is set (see C05)", Floor: 8, Run: ruleR0510},
 		},
 	})
 	register(&Property{
